@@ -263,3 +263,9 @@ Example C12_nonvacuous_script :
   k_script ex_prog 2 ["x"; "c"] [0; 0; 0; 1; 0; 0]%nat =
   [1; 0; 1; 2;  0; 1; 1; 1;  1; 1; 0; 1;  1; 1; 0; 1]%Z.
 Proof. vm_compute. reflexivity. Qed.
+
+(* the reading of ">=" shared by conditions (evaluate_cop) and the analysis: equality included.
+   (`--simulate` evaluates tail-bound goals P(X >= c) differently: known finding, see c12.py) *)
+Theorem C12_ge_includes_equality : forall x : Qc, cop_holds Cge x x = true /\ cop_holds Cle x x = true.
+Proof. exact cop_refl. Qed.
+Print Assumptions C12_ge_includes_equality.
